@@ -115,6 +115,10 @@ type aprWrite struct {
 	dropped    bool                                // ... while the write had no outcome
 	afterDrop  []string                            // what was observed for it after that
 	ack        bool
+	chg        bool // applying the payload is known to change the data (a value no other write carries, an item not yet deleted)
+	acksSeen   int  // success results attributed to it (on the connection they were seen on)
+	acksRep    int
+	dataRep    int // 'applied' outcomes whose data change has been reported
 	t0         time.Time
 	msgs       map[int]*api.Message // callback index -> the message it was handed
 	presented  map[int]int
@@ -153,7 +157,8 @@ type aprWorld struct {
 	byData  map[*model.LoadControlLimitListDataType]*aprWrite
 	order   []*aprWrite
 	step    int
-	strange []string // observations that fit no write
+	lastDig [2]string // digest of each feature's data at the last observation
+	strange []string  // observations that fit no write
 }
 
 func (w *aprWorld) HandleEvent(p api.EventPayload) {
@@ -244,6 +249,7 @@ func newAprWorld(nCb, nPeers int) *aprWorld {
 	_ = spine.VerifSubscribeCore(w)
 	for p := 0; p < nPeers; p++ {
 		w.connect(p)
+		w.lastDig[p] = w.digest(p)
 	}
 	return w
 }
@@ -273,6 +279,11 @@ func (w *aprWorld) connect(p int) {
 		FeatureInformation: []model.NodeManagementDetailedDiscoveryFeatureInformationType{
 			{Description: &model.NetworkManagementFeatureDescriptionDataType{FeatureAddress: h.FA(dev, []uint{0}, 0), FeatureType: &nt, Role: &nr}},
 			{Description: &model.NetworkManagementFeatureDescriptionDataType{FeatureAddress: h.FA(dev, []uint{1}, 1), FeatureType: &ft, Role: &role}}},
+	}
+	// entities 2..5 never write; the harness announces them as removed while writes of entity 1 are pending
+	for e := uint(2); e <= 5; e++ {
+		dd.EntityInformation = append(dd.EntityInformation, model.NodeManagementDetailedDiscoveryEntityInformationType{Description: &model.NetworkManagementEntityDescriptionDataType{EntityAddress: &model.EntityAddressType{Entity: spine.NewAddressEntityType([]uint{e})}, EntityType: util.Ptr(model.EntityTypeTypeEVSE)}})
+		dd.FeatureInformation = append(dd.FeatureInformation, model.NodeManagementDetailedDiscoveryFeatureInformationType{Description: &model.NetworkManagementFeatureDescriptionDataType{FeatureAddress: h.FA(dev, []uint{e}, 1), FeatureType: &ft, Role: &role}})
 	}
 	cl := model.CmdClassifierTypeReply
 	w.inject(p, model.DatagramType{Header: model.HeaderType{AddressSource: h.FA(dev, []uint{0}, 0), AddressDestination: h.FA("HEMS", []uint{0}, 0), MsgCounter: util.Ptr(model.MsgCounterType(1)), MsgCounterReference: util.Ptr(model.MsgCounterType(1)), CmdClassifier: &cl}, Payload: model.PayloadType{Cmd: []model.CmdType{{NodeManagementDetailedDiscoveryData: dd}}}})
@@ -321,6 +332,9 @@ func (w *aprWorld) digest(p int) string {
 	return string(b)
 }
 
+// digestLocked: the same, callable with w.mu held (the digest does not touch the world's own state)
+func (w *aprWorld) digestLocked(p int) string { return w.digest(p) }
+
 // scan attributes the result datagrams written since the last call to their writes.
 func (w *aprWorld) scan() {
 	w.mu.Lock()
@@ -352,6 +366,7 @@ func (w *aprWorld) scan() {
 			switch {
 			case c0.ResultData.ErrorNumber == nil || *c0.ResultData.ErrorNumber == 0:
 				wr.successes++
+				wr.acksSeen++
 			case c0.ResultData.Description != nil && string(*c0.ResultData.Description) == aprTimeoutTx:
 				wr.outcomes = append(wr.outcomes, aprOutcome{"terr", w.step, at})
 				if wr.timeoutAt == 0 {
@@ -435,6 +450,13 @@ func (x *aprRun) observe(about *aprWrite, extra ...string) string {
 	x.w.mu.Lock()
 	defer x.w.mu.Unlock()
 	t := append([]string{}, extra...)
+	// the data of every feature now, against what it was at the last observation
+	var changed, explained [2]bool
+	for p := 0; p < x.w.nPeers; p++ {
+		d := x.w.digestLocked(p)
+		changed[p] = d != x.w.lastDig[p]
+		x.w.lastDig[p] = d
+	}
 	for _, wr := range x.w.order {
 		for wr.reported < len(wr.outcomes) {
 			o := wr.outcomes[wr.reported]
@@ -444,8 +466,26 @@ func (x *aprRun) observe(about *aprWrite, extra ...string) string {
 			if o.kind == "terr" {
 				wr.expired = true
 			}
-			t = append(t, fmt.Sprintf("%d/%d:%s", wr.epoch, wr.c, o.kind))
+			t = append(t, fmt.Sprintf("p%d.%d/%d:%s", wr.p, wr.epoch, wr.c, o.kind))
 			wr.reported++
+			if o.kind == "applied" {
+				// the data itself (not only the event): an applied write whose payload must change the data did
+				explained[wr.p] = true
+				if wr.chg && changed[wr.p] {
+					t = append(t, fmt.Sprintf("p%d.%d/%d:data", wr.p, wr.epoch, wr.c))
+				}
+			}
+		}
+		// success results, on the connection they were seen on (scan attributes a result to the write of that
+		// counter on the connection whose writer received it)
+		for wr.acksRep < wr.acksSeen {
+			t = append(t, fmt.Sprintf("p%d.%d/%d:ack", wr.p, wr.epoch, wr.c))
+			wr.acksRep++
+		}
+	}
+	for p := 0; p < x.w.nPeers; p++ {
+		if changed[p] && !explained[p] {
+			t = append(t, fmt.Sprintf("p%d:data-changed-without-apply", p))
 		}
 	}
 	sort.Strings(t)
@@ -489,9 +529,11 @@ func (x *aprRun) expire(wr *aprWrite, inserted bool) bool {
 		if seen {
 			break
 		}
-		if time.Now().After(dead) {
-			// a write without any outcome: reported by the monitor (no-outcome); do not wait that long again
-			atomic.StoreInt64(&aprDeadlineNow, int64(300*time.Millisecond))
+		if time.Now().After(dead) && h.Kept(wr.t0.Add(aprTimeout)) > time.Duration(atomic.LoadInt64(&aprDeadlineNow))/2 {
+			// a write without any outcome although the process has been running that long since the timeout instant
+			// (kept time of the reference goroutine: a stall of the whole process stalls the timer goroutine as
+			// well): reported by the monitor (no-outcome); do not wait that long again
+			atomic.StoreInt64(&aprDeadlineNow, int64(600*time.Millisecond))
 			break
 		}
 		if rem := time.Until(wr.t0.Add(aprTimeout)); rem > 2*time.Millisecond {
@@ -664,18 +706,31 @@ func (x *aprRun) exec(op string) bool {
 		}
 		// a timer that fires while the connection is being removed is a race the harness does not decide (C10): every
 		// write still pending is either safely before its deadline or its timeout is awaited first
+		var waiting []*aprWrite
 		for _, wr := range append([]*aprWrite{}, w.order...) {
 			if wr.p != p || wr.gone {
 				continue
 			}
-			if _, ok := x.timely(wr); !ok {
+			tm, ok := x.timely(wr)
+			if !ok {
 				return false
+			}
+			if tm {
+				waiting = append(waiting, wr)
 			}
 		}
 		x.res.executed = append(x.res.executed, fmt.Sprintf("drop %d", p))
 		w.step++
 		w.scan()
 		w.drop(p)
+		for _, wr := range waiting {
+			// as for a verdict: the removal was started safely before the write's timeout instant; if it returned
+			// after that instant (a stall), the timer may have fired first - nothing was decided
+			if time.Since(wr.t0) >= aprTimeout {
+				x.res.abandoned = "a connection removal started in time returned after the timeout instant of a pending write"
+				return false
+			}
+		}
 		return x.compare(op, "drop", x.observe(nil), fmt.Sprintf("drop %d", p))
 	case "reconnect":
 		// the same peer (same SKI) connects again: a fresh connection, its message counters start over
@@ -701,13 +756,17 @@ func (x *aprRun) exec(op string) bool {
 		if w.conn[p] == nil || w.conn[p].closed || find(p, c) != nil || c == 0 {
 			return true // counters are unique per connection (precondition)
 		}
-		cmd, okShape := x.aprCmd(shape, c)
+		// the value a write carries is unique in the history (counter and connection), so that applying it must
+		// change the data; a delete changes it while the item is still there
+		delBefore := x.deletes
+		cmd, okShape := x.aprCmd(shape, c+100*w.conn[p].epoch)
 		if !okShape {
 			return true
 		}
+		chg := shape == "full" || shape == "pid" || shape == "psel" || shape == "pall" || (shape == "dsel" && delBefore < 12)
 		x.res.executed = append(x.res.executed, fmt.Sprintf("write %d %d %d %s", p, c, h.B2i(ack), shape))
 		w.step++
-		wr := &aprWrite{p: p, c: uint64(c), epoch: w.conn[p].epoch, shape: shape, ack: ack, msgs: map[int]*api.Message{}, presented: map[int]int{}, digAt: map[int]string{}}
+		wr := &aprWrite{p: p, c: uint64(c), epoch: w.conn[p].epoch, shape: shape, ack: ack, chg: chg, msgs: map[int]*api.Message{}, presented: map[int]int{}, digAt: map[int]string{}}
 		before := w.digest(p)
 		wr.digBefore = before
 		w.mu.Lock()
@@ -730,8 +789,10 @@ func (x *aprRun) exec(op string) bool {
 			if k >= w.nCb {
 				break
 			}
-			if time.Since(t0) > bound {
-				// a callback was not invoked: reported by the monitor; do not wait that long again
+			if time.Since(t0) > bound && h.Kept(t0) > bound/2 {
+				// a callback was not invoked although the process has been running for that long (kept time of the
+				// reference goroutine, not the wall clock: a stall that hit the whole process hit the callback
+				// goroutines as well): reported by the monitor; do not wait that long again
 				atomic.StoreInt64(&aprPresentBound, int64(30*time.Millisecond))
 				break
 			}
@@ -747,7 +808,7 @@ func (x *aprRun) exec(op string) bool {
 			x.res.fail("C12/data-changed-before-approval", fmt.Sprintf("the data of feature %d changed when %s arrived, before any verdict: %s", p, wr.name(), aprDiff(before, after)))
 		}
 		x.res.nWrites++
-		return x.compare(op, "write", x.observe(wr, fmt.Sprintf("pres=%d", pres)), fmt.Sprintf("arrive %d %d", p, c))
+		return x.compare(op, "write", x.observe(wr, fmt.Sprintf("pres=%d", pres)), fmt.Sprintf("arrive %d %d %d %d", p, c, h.B2i(ack), h.B2i(chg)))
 	case "verdict", "look", "oldverdict", "oldlook":
 		// verdict <p> <c> <cb> <a>   |   look <id> <p> <c> <cb> <a>
 		// oldverdict / oldlook: the same for the write that carried counter c on the peer's EARLIER connection (the
@@ -1651,6 +1712,262 @@ func aprCorpus() [][]string {
 	}
 }
 
+// ---------- clean-ups concurrent with verdicts (judged by the SPEC only)
+
+// aprRemovedNotify: the peer announces its entity e as removed (partial notify of the detailed discovery data)
+func aprRemovedNotify(p int, e uint, ctr int) model.DatagramType {
+	dev := aprDev(p)
+	fn := model.FunctionTypeNodeManagementDetailedDiscoveryData
+	nc := model.CmdClassifierTypeNotify
+	rem := model.NetworkManagementStateChangeTypeRemoved
+	dd := &model.NodeManagementDetailedDiscoveryDataType{
+		DeviceInformation: &model.NodeManagementDetailedDiscoveryDeviceInformationType{Description: &model.NetworkManagementDeviceDescriptionDataType{DeviceAddress: &model.DeviceAddressType{Device: util.Ptr(model.AddressDeviceType(dev))}}},
+		EntityInformation: []model.NodeManagementDetailedDiscoveryEntityInformationType{
+			{Description: &model.NetworkManagementEntityDescriptionDataType{EntityAddress: &model.EntityAddressType{Entity: spine.NewAddressEntityType([]uint{e})}, LastStateChange: &rem}}},
+	}
+	return model.DatagramType{Header: model.HeaderType{AddressSource: h.FA(dev, []uint{0}, 0), AddressDestination: h.FA("HEMS", []uint{0}, 0), MsgCounter: util.Ptr(model.MsgCounterType(ctr)), CmdClassifier: &nc},
+		Payload: model.PayloadType{Cmd: []model.CmdType{{Function: &fn, Filter: []model.FilterType{{CmdControl: &model.CmdControlType{Partial: &model.ElementTagType{}}}}, NodeManagementDetailedDiscoveryData: dd}}}}
+}
+
+// aprAwait: the task has ended, or it has not although the process has been running for `bound` (kept time)
+func aprAwait(t *h.Task, bound time.Duration) bool {
+	t0 := time.Now()
+	for {
+		if _, done, ok := t.Wait(20 * time.Millisecond); ok && done {
+			return true
+		}
+		if time.Since(t0) > bound && h.Kept(t0) > bound/2 {
+			return t.IsDone()
+		}
+	}
+}
+
+// aprAwaitAll: one bound for all of them; returns how many have not ended
+func aprAwaitAll(ts []*h.Task, bound time.Duration) int {
+	t0 := time.Now()
+	for {
+		left := 0
+		for _, t := range ts {
+			if !t.IsDone() {
+				left++
+			}
+		}
+		if left == 0 || (time.Since(t0) > bound && h.Kept(t0) > bound/2) {
+			return left
+		}
+		time.Sleep(200 * time.Microsecond)
+	}
+}
+
+func aprSpin(d time.Duration) {
+	for t0 := time.Now(); time.Since(t0) < d; {
+	}
+}
+
+// aprConcurrentCleanups: "every write gets exactly one outcome, regardless of the order in which approvals, denials
+// and the timeout interleave" - and whatever else the stack does for the peer meanwhile. Per round: several writes
+// pending, the verdict goroutines of two or three callbacks parked past the pending lookup; they are released
+// together with a clean-up running on another goroutine: the peer announces an entity as removed (another one than
+// the writer's: the writes stay; or the writer's: they go) or its connection is removed. Every call into the stack
+// must return (bounded in kept time); with the writer's entity still there, every write then gets exactly one
+// outcome - applied if all callbacks approved, the denial's error otherwise - and a fresh write afterwards is still
+// served. A feature that no longer answers is reported as C12/write-without-outcome:blocked.
+func aprConcurrentCleanups(r *h.Report, rounds int) {
+	const key = "C12/write-without-outcome:blocked"
+	const bound = 4 * time.Second
+	rng := h.Rng(1277)
+	w := newAprWorld(3, 1)
+	defer w.close()
+	w.f[0].SetWriteApprovalTimeout(3 * time.Second) // the timers stay out of it: every write is resolved by verdicts
+	if !w.bound(0) {
+		r.Info["concurrent_cleanups"] = "world: binding not established"
+		return
+	}
+	call := func(f func()) bool { return aprAwait(h.Go(f), bound) }
+	var ops []string
+	fail := func(k, detail string) {
+		r.SpecFail(k, append([]string{}, ops...), detail)
+	}
+	hit := map[string]int{}
+	ctr := 20
+	phaseStart := time.Now()
+	// how long the stack takes from the arrival of a removal announcement to its end (no verdicts around): the
+	// verdicts are released somewhere inside that span
+	var lat []time.Duration
+	for e := uint(4); e <= 5; e++ {
+		ctr++
+		dg := aprRemovedNotify(0, e, ctr)
+		t0 := time.Now()
+		if !call(func() { w.inject(0, dg) }) {
+			fail(key, "an entity removal announcement was not processed (no write pending)")
+			return
+		}
+		lat = append(lat, time.Since(t0))
+	}
+	span := lat[0]
+	if lat[1] < span {
+		span = lat[1]
+	}
+	if span > 3*time.Millisecond {
+		span = 3 * time.Millisecond
+	}
+	if !call(func() { w.drop(0) }) || !call(func() { w.connect(0) }) || !w.bound(0) {
+		fail(key, "the peer could not connect again after the calibration")
+		return
+	}
+	ctr = 20
+	for round := 0; round < rounds; round++ {
+		mode := []string{"other-entity", "writers-entity", "writers-entity", "disconnect"}[round%4]
+		ops = []string{"cfg 3 1", fmt.Sprintf("concurrent-cleanup %s round %d", mode, round)}
+		res := &aprResult{shapes: map[string]int{}}
+		x := &aprRun{w: w, res: res, looks: map[int]*aprLook{}}
+		nW := 3 + rng.Intn(4)
+		if mode == "writers-entity" {
+			nW = 24 + rng.Intn(8) // a longer clean-up loop (one iteration per pending write of the entity) and a longer burst of verdicts
+		}
+		var wrs []*aprWrite
+		for i := 0; i < nW; i++ {
+			ctr++
+			c := ctr
+			if !call(func() { x.exec(fmt.Sprintf("write 0 %d %d pid", c, i%2)) }) {
+				fail(key, fmt.Sprintf("round %d (%s): the write datagram %d was not taken within %v: the feature no longer answers", round, mode, c, bound))
+				return
+			}
+			w.mu.Lock()
+			wr := w.conn[0].writes[uint64(c)]
+			w.mu.Unlock()
+			if wr == nil || len(wr.msgs) < w.nCb {
+				fail("C12/not-presented-to-every-callback", fmt.Sprintf("round %d: write %d was not presented to all callbacks", round, c))
+				return
+			}
+			wrs = append(wrs, wr)
+		}
+		// verdict goroutines: callbacks 0 and 1 approve every write, parked past the pending lookup
+		var tasks []*h.Task
+		for _, wr := range wrs {
+			for cb := 0; cb < 2; cb++ {
+				m := wr.msgs[cb]
+				t := h.Go(func() { w.f[0].ApproveOrDenyWrite(m, aprErr(true)) }, aprSite)
+				if site, done, ok := t.Wait(3 * time.Second); !ok || done || site != aprSite {
+					r.Info["concurrent_cleanups"] = "a verdict goroutine did not reach the yield point"
+					for _, t := range tasks {
+						t.Finish(time.Second)
+					}
+					return
+				}
+				tasks = append(tasks, t)
+			}
+		}
+		// the clean-up on its own goroutine, the verdicts released around it
+		lead := time.Duration(rng.Int63n(int64(span) + 1))
+		gap := time.Duration(rng.Int63n(int64(span)/int64(2*len(tasks)) + 1)) // the verdicts spread over up to half the span
+		if round%4 == 2 {
+			lead = span/2 + time.Duration(rng.Int63n(int64(span)/2+1)) // the clean-up of the approvals comes last in a removal
+		}
+		if mode == "writers-entity" {
+			gap = 0 // releasing ~50 parked goroutines one after the other is spread enough
+		}
+		var clean *h.Task
+		startClean := func() {
+			switch mode {
+			case "other-entity":
+				ctr++
+				dg := aprRemovedNotify(0, uint(2+(round/4)%2), ctr)
+				clean = h.Go(func() { w.inject(0, dg) })
+			case "writers-entity":
+				ctr++
+				dg := aprRemovedNotify(0, 1, ctr)
+				clean = h.Go(func() { w.inject(0, dg) })
+			default:
+				clean = h.Go(func() { w.drop(0) })
+			}
+		}
+		if round%2 == 0 {
+			// the clean-up first, the verdicts somewhere inside the time it takes
+			startClean()
+			aprSpin(lead)
+			for _, t := range tasks {
+				t.Release()
+				aprSpin(gap)
+			}
+		} else {
+			// the verdicts first, the clean-up somewhere inside their burst (a released goroutine has to wake up:
+			// on a busy machine that takes longer than the clean-up)
+			at := rng.Intn(len(tasks))
+			for i, t := range tasks {
+				if i == at {
+					startClean()
+				}
+				t.Release()
+			}
+		}
+		stuck := aprAwaitAll(append(append([]*h.Task{}, tasks...), clean), bound)
+		cleanDone := clean.IsDone()
+		if !cleanDone {
+			stuck--
+		}
+		if stuck > 0 || !cleanDone {
+			fail(key, fmt.Sprintf("round %d: %d writes were pending with two approvals each being committed (ApproveOrDenyWrite, %d goroutines) while the stack processed '%s' for the peer: %d verdict calls and the clean-up (returned: %v) have not returned after %v - the feature is blocked: none of its writes can get an outcome any more, not even by timeout", round, nW, len(tasks), mode, stuck, cleanDone, bound))
+			return
+		}
+		hit[mode]++
+		switch mode {
+		case "other-entity":
+			// the writes are still there: the third callback decides, one write after the other
+			for i, wr := range wrs {
+				approve := i%2 == 0
+				m := wr.msgs[2]
+				if !call(func() { w.f[0].ApproveOrDenyWrite(m, aprErr(approve)) }) {
+					fail(key, fmt.Sprintf("round %d: the third verdict for write %d did not return within %v", round, wr.c, bound))
+					return
+				}
+				w.scan()
+				w.mu.Lock()
+				var kinds []string
+				for _, o := range wr.outcomes {
+					kinds = append(kinds, o.kind)
+				}
+				w.mu.Unlock()
+				want := map[bool]string{true: "applied", false: "derr"}[approve]
+				if got := strings.Join(kinds, "+"); got != want {
+					k := "C12/two-outcomes"
+					if got == "" {
+						k = "C12/no-outcome"
+					}
+					fail(k, fmt.Sprintf("round %d: write %d of the peer (3 callbacks: two approvals committed while the peer's entity %d was announced as removed, then callback 2 %s): expected %s, observed [%s]", round, wr.c, 2+(round/4)%2, map[bool]string{true: "approved", false: "denied"}[approve], want, got))
+					return
+				}
+			}
+		default:
+			// the writes went with their entity / connection: none may have two outcomes
+			w.scan()
+			w.mu.Lock()
+			for _, wr := range wrs {
+				if len(wr.outcomes) > 1 {
+					w.mu.Unlock()
+					fail("C12/two-outcomes", fmt.Sprintf("round %d (%s): write %d has %d outcomes", round, mode, wr.c, len(wr.outcomes)))
+					return
+				}
+			}
+			w.mu.Unlock()
+		}
+		// a fresh connection for the next round (the entity list, the binding and the counters start over)
+		if mode != "disconnect" {
+			if !call(func() { w.drop(0) }) {
+				fail(key, fmt.Sprintf("round %d (%s): RemoveRemoteDeviceConnection did not return within %v", round, mode, bound))
+				return
+			}
+		}
+		if !call(func() { w.connect(0) }) || !w.bound(0) {
+			fail(key, fmt.Sprintf("round %d (%s): the peer could not connect and bind again within %v", round, mode, bound))
+			return
+		}
+		ctr = 20
+		r.Eval("concurrent-cleanup:"+mode, "")
+	}
+	r.Info["concurrent_cleanups"] = fmt.Sprintf("%d rounds (verdict goroutines released inside the %v an entity removal takes / around a disconnect): %v, %v", rounds, span, hit, time.Since(phaseStart).Round(time.Millisecond))
+}
+
 // ---------- the test
 
 func TestApproval(t *testing.T) {
@@ -1734,6 +2051,13 @@ func TestApproval(t *testing.T) {
 	}
 
 	if ops := h.ReplayOps("approval"); ops != nil {
+		for _, op := range ops {
+			if strings.HasPrefix(op, "concurrent-cleanup") {
+				// the failing input is a race: the replay is the phase itself
+				aprConcurrentCleanups(r, h.Scale(160, 600))
+				return
+			}
+		}
 		flags := aprProbe(r)
 		d := h.StartDriver("drv_appr", flags...)
 		defer d.Close()
@@ -1810,12 +2134,20 @@ func TestApproval(t *testing.T) {
 	}
 	wg.Wait()
 
+	aprConcurrentCleanups(r, h.Scale(160, 600))
+
 	r.Info["abandoned_histories_by_reason"] = abandoned
 	r.Info["timing_dependent_disagreements_not_reproduced"] = flakes
 	r.Info["writes"] = map[string]int{"total": tot.writes, "applied": tot.applied, "denied": tot.denied, "timed_out": tot.timedOut, "verdicts_committed_after_resolution": tot.races}
 	nAb := 0
 	for _, v := range abandoned {
 		nAb += v
+	}
+	if r.MismatchN > 0 || len(r.SpecFailKeys()) > 0 {
+		// the run already disagrees with the model or the statement: what the generator reached says nothing (a
+		// change that breaks every history at its first write starves every floor) - the disagreement is the result
+		r.Info["floors"] = "not evaluated: the run has mismatches / spec failures"
+		return
 	}
 	jp50, jp99, jmax, jn := h.JitterStats()
 	r.Info["jitter_witness"] = fmt.Sprintf("reference goroutine with a 2 ms ticker: %d wake-ups, lateness median %v, 99th percentile %v, max %v", jn, jp50, jp99, jmax)
